@@ -38,10 +38,8 @@ def binding_predicates(em):
             return all(boolish(v, fam) for v in e.values)
         if isinstance(e, ast.UnaryOp) and isinstance(e.op, ast.Not):
             return True
-        if isinstance(e, ast.Attribute) and e.attr == '_is_bound':
-            return True
         if isinstance(e, ast.Attribute):
-            return e.attr in fam_fields
+            return True
         if isinstance(e, ast.Call) and isinstance(e.func, ast.Name) and e.func.id in ('all', 'any', 'bool', 'isinstance'):
             return True
         if isinstance(e, ast.Call):
@@ -62,8 +60,12 @@ def binding_predicates(em):
             if f in fam or f.name in ('__init__', '__str__', '__repr__'):
                 continue
             rets = [x for x in own_nodes(f.node) if isinstance(x, ast.Return) and x.value is not None]
-            if not rets or not all(boolish(r.value, fam) for r in rets):
+            if not rets or not all(boolish(r.value, fam | {f}) for r in rets):
                 continue
+            if not any(isinstance(r.value, (ast.Compare, ast.BoolOp, ast.UnaryOp)) or (isinstance(r.value, ast.Constant) and isinstance(r.value.value, bool)) or
+                       (isinstance(r.value, ast.Call) and isinstance(r.value.func, ast.Name) and r.value.func.id in ('all', 'any', 'bool', 'isinstance'))
+                       for r in rets):
+                continue            # only attribute reads / delegations: not evidently a truth value
             reads = any(isinstance(x, ast.Attribute) and x.attr == '_is_bound' and isinstance(x.ctx, ast.Load) for x in own_nodes(f.node))
             calls = any(isinstance(x, ast.Call) and ((isinstance(x.func, ast.Name) and any(g.name == x.func.id and g.cls is None for g in fam)) or
                                                    (isinstance(x.func, ast.Attribute) and any(g.name == x.func.attr and g.cls is not None for g in fam)))
@@ -208,6 +210,29 @@ def derived_tables(em):
     return out
 
 
+def _path_statements(node):
+    """the statements executed on the paths through ``node``: its own statement and, for every enclosing block, the
+    statements before and after it - but not the other branches of the compound statements it sits in"""
+    out = []
+    cur = node
+    while cur is not None and not isinstance(cur, ast.stmt):
+        cur = getattr(cur, '_parent', None)
+    if cur is None:
+        return out
+    out.append(cur)
+    for p in parents(cur):
+        for fld in ('body', 'orelse', 'finalbody'):
+            blk = getattr(p, fld, None)
+            if isinstance(blk, list) and any(cur is b for b in blk):
+                out.extend(b for b in blk if b is not cur)
+        if isinstance(p, ast.ExceptHandler):
+            pass
+        cur = p
+        if isinstance(p, (ast.FunctionDef, ast.Lambda)):
+            break
+    return out
+
+
 def _updates(stmts, table):
     """how a statement list touches self.<table>: 'reset' (clear / re-bound), 'entry' (pop/del/assign of one key), None"""
     best = None
@@ -260,16 +285,7 @@ def rule_derived_tables_follow(em, rep, rid):
                     sites.append((s, None))
                 for node, keyexpr in sites:
                     # the statements on the same path: enclosing blocks up to the function, each from its start to its end
-                    path_stmts = []
-                    cur = s
-                    for p in parents(s):
-                        for fld in ('body', 'orelse', 'finalbody'):
-                            blk = getattr(p, fld, None)
-                            if isinstance(blk, list) and cur in blk:
-                                path_stmts.extend(blk)
-                        cur = p
-                        if isinstance(p, (ast.FunctionDef, ast.Lambda)):
-                            break
+                    path_stmts = _path_statements(s)
                     how = _updates(path_stmts, table)
                     if how is None:
                         # a helper: every caller inside the class may do the update around the call
@@ -277,17 +293,7 @@ def rule_derived_tables_follow(em, rep, rid):
                         if callers:
                             hows = []
                             for g, c in callers:
-                                stmts = []
-                                cur = c
-                                for p in parents(c):
-                                    for fld in ('body', 'orelse', 'finalbody'):
-                                        blk = getattr(p, fld, None)
-                                        if isinstance(blk, list) and any(cur is b for b in blk):
-                                            stmts.extend(blk)
-                                    cur = p
-                                    if isinstance(p, (ast.FunctionDef, ast.Lambda)):
-                                        break
-                                hows.append(_updates(stmts, table))
+                                hows.append(_updates(_path_statements(c), table))
                             if all(h is not None for h in hows):
                                 how = 'reset' if all(h == 'reset' for h in hows) else 'entry'
                     shapes = set()
@@ -457,3 +463,51 @@ def rule_depth_error_propagates(em, rep, rid):
                               'of being cut off', f.loc(h))
     rep.ok(rid, 'query machinery', '%d function(s) reachable from a goal examined, %d handler(s) that could catch the depth error' % (len(reach), n),
            None, nontrivial=False)
+
+
+# ---------------------------------------------------------------------------------------------
+# compiler stages are made per compilation
+
+
+def rule_stages_per_call(cm, em, rep, rid):
+    from .rules_front import pipeline_function
+    rep.rule(rid, 'every visitor, compiler and emitter object is constructed inside the compile pipeline function (or a function '
+                  'that only the pipeline calls): none is made once per run by the command line, per import, or handed in from '
+                  'outside - their counters (anonymous variables, block labels) would carry over from one source to the next and '
+                  'the command line would no longer write what the library returns for the same text')
+    views = pipeline_function(em)
+    pipe = views[0].origin
+    comp = em.repo.module('compiler')
+    percall = {pipe} | set(views[0].inlined)
+    changed = True
+    funcs = [f for f in comp.all_funcs]
+    while changed:
+        changed = False
+        for f in funcs:
+            if f in percall:
+                continue
+            sites = em.cg.call_sites_of(f)
+            if sites and all(g in percall for g, _ in sites):
+                percall.add(f)
+                changed = True
+    n = 0
+    for f in funcs:
+        for x in own_nodes_ordered(f.node):
+            if not (isinstance(x, ast.Call) and isinstance(x.func, ast.Name)):
+                continue
+            r = em.repo.resolve_name(f, x.func.id)
+            if not (r and r[0] == 'class' and r[1].module.name in ('yp_generator', 'yp_prolog_visitor')):
+                continue
+            if not any(isinstance(y, ast.AugAssign) and is_self_attr(y.target) for m in r[1].methods.values() for y in own_nodes(m.node)) and \
+                    r[1].name not in ('YPPrologVisitor', 'YPPrologCompiler', 'YPPythonCodeGenerator'):
+                continue
+            n += 1
+            key = '%s:%s' % (f.qname, norm(x)[:50])
+            if f in percall:
+                rep.ok(rid, key, 'constructed per compilation', f.loc(x))
+            else:
+                outside = [g.qname for g, _ in em.cg.call_sites_of(f) if g not in percall]
+                rep.violation(rid, key, 'a %s is constructed in %s, which also runs outside the pipeline call (%s): the object and its '
+                              'counters can serve several compilations, so what is written for a source depends on the sources before it' % (
+                                  r[1].name, f.name, ', '.join(outside[:3]) or 'module level / entry point'), f.loc(x))
+    rep.minimum('constructions of stateful compiler stages', n, 3)
